@@ -141,12 +141,13 @@ Definition tw3_op (t : bool * Z * bool * cwst) (o : hop) : bool * Z * bool * cws
     let code1 := if wrote then code else 200 in
     let cw1 := if flushed then cw else if code1 =? 200 then cw else cw3_header cw code1 in
     (true, code1, true, cw3_touch cw1)             (* cw.Write + cw.Flush: the header is on the wire *)
+  | HCtxDone _ => t
   end.
 
 Definition script_code_p3 (ch : hchain) (ops : list hop) (e : hend) : Z :=
   match ch with
   | ChPlain _ =>
-    cw_code3 (fold_left (fun s o => match o with HWriteHeader c => cw3_header s c | _ => cw3_touch s end)
+    cw_code3 (fold_left (fun s o => match o with HWriteHeader c => cw3_header s c | HCtxDone _ => s | _ => cw3_touch s end)
                         ops (mkCW false 200))
   | ChTimeout _ =>
     let '(wrote, code, flushed, cw) := fold_left tw3_op ops (false, 200, false, mkCW false 200) in
@@ -197,4 +198,59 @@ Proof. vm_compute. reflexivity. Qed.
 Theorem p3_total_failure_never_trips :
   forallb (fun o => negb (was_rejected o))
           (snd (run cfg_default (init_world cfg_default 1000000000000) (map rest_call_p3 p3_history))) = true.
+Proof. vm_compute. reflexivity. Qed.
+
+(* ------------------------------------------------------------------------------------
+   P4 (seeded change C01-3): the zrpc server's UnaryBreakerInterceptor wraps its predicate,
+     func(err) bool { if ctx.Err() != nil { return true }; return serverSideAcceptable(err) }
+   "the caller has gone away, the result says nothing about this server".  But ctx.Err() is
+   also non-nil when the call's OWN deadline passed while the handler ran: every result of a
+   handler that ran into its deadline is then a success, and the server-side breaker never opens
+   under sustained timeouts. *)
+Definition wrap_p4 (k : wkind) (rej : bool) (x : wctx) (d : derr) : wrapres :=
+  match k with
+  | WGrpcServerUnary =>
+    if x_done_at_entry x then mkWR 0 0 0 0 SCtxErr
+    else if rej then mkWR 0 0 0 1 (rejected_seen k)
+    else let ok := match d with DPanic => false | _ => x_done_at_return x || w_acceptable k d end in
+         mkWR 1 (if ok then 1 else 0) (if ok then 0 else 1) 0 (pass_seen k d)
+  | _ => wrapx k rej x d
+  end.
+
+(* HEAD: an admitted call whose downstream result is unacceptable is a failure whatever has
+   become of the context *)
+Theorem unacceptable_is_a_failure_whatever_the_context : forall k x d,
+  (match k with WSqlPredicate | WRedisIgnoredCmd => false | _ => true end) = true ->
+  x_done_at_entry x = false -> w_acceptable k d = false ->
+  wr_fail (wrapx k false x d) = 1 /\ wr_succ (wrapx k false x d) = 0.
+Proof.
+  intros k x d Hk Hx Ha. unfold wrapx. rewrite Hx.
+  assert (E : wrap k false false d =
+              let ok := match d with DPanic => false | _ => w_acceptable k d end in
+              mkWR 1 (if ok then 1 else 0) (if ok then 0 else 1) 0 (pass_seen k d)).
+  { destruct k; try discriminate Hk; cbn [wrap w_uses_ctx]; rewrite ?andb_false_r; reflexivity. }
+  rewrite E. cbn zeta. destruct d; cbv beta iota; rewrite ?Ha; cbn; auto.
+Qed.
+
+Theorem p4_deadline_passed_in_handler_refuted :
+  ~ (forall x d, x_done_at_entry x = false -> w_acceptable WGrpcServerUnary d = false ->
+                 wr_fail (wrap_p4 WGrpcServerUnary false x d) = 1).
+Proof. intros H. specialize (H XExpiredAtReturn DCtxDeadline eq_refl eq_refl). vm_compute in H. discriminate H. Qed.
+
+(* sustained timeouts: 100 calls whose handler runs into the call's deadline and returns
+   DeadlineExceeded, then 6 calls drawing 0.  HEAD sheds the six; pinned records every one of the
+   hundred as a success and sheds nothing. *)
+Definition p4_call (acc : wkind -> bool -> wctx -> derr -> wrapres) (u : Q) : call :=
+  let r := acc WGrpcServerUnary false XExpiredAtReturn DCtxDeadline in
+  mkCall EDoAcc CLive (if wr_succ r =? 1 then OErrA else OErrU) 1000000 0 u.
+Definition p4_history acc : list call := repeat (p4_call acc (999 # 1000)) 100 ++ repeat (p4_call acc 0) 6.
+
+Example p4_head_sheds :
+  map was_rejected (skipn 100 (snd (run cfg_default (init_world cfg_default 1000000000000) (p4_history wrapx))))
+  = repeat true 6.
+Proof. vm_compute. reflexivity. Qed.
+
+Theorem p4_sustained_timeouts_never_trip :
+  forallb (fun o => negb (was_rejected o))
+          (snd (run cfg_default (init_world cfg_default 1000000000000) (p4_history wrap_p4))) = true.
 Proof. vm_compute. reflexivity. Qed.
